@@ -265,6 +265,7 @@ def verdicts (st : DState) (op : String) (args : List String) (goRes : String) :
     if (res.getD []).contains "PANIC" then [("*", "panic-in-observation")] else
     -- C09 / C10 observations made by the harness on the implementation (harness/ops_iso.go, canon.go guardedBuf)
     if (res.getD []).contains "WROTE-INPUT" then [("*", "decoder-or-inspector-wrote-to-its-input-buffer")] else
+    if (res.getD []).contains "CAPACITY-DEPENDENT" then [("*", "result-depends-on-bytes-behind-the-input-slice")] else
     if IsoOps.isIsoOp op && (res.getD []).contains "CHANGED" then
       [("C10", if op == "bandiso" then "band-instances-share-mutable-state" else if op == "inspect" then "inspect-only-operation-modified-the-frame"
                else "value-shares-memory-with-caller-buffer")] else
